@@ -173,11 +173,15 @@ theorem mem_joinBar (fs : List Bytes) (x : Nat) (hx : x ∈ joinBar fs) : x = BA
         · exact Or.inl h
         · exact Or.inr ⟨f', List.mem_cons_of_mem _ hf', hxf⟩
 
-theorem dropCR_of_not_mem (l : Bytes) (h : CR ∉ l) : dropCR l = l := by
-  unfold dropCR
-  rw [if_neg]
-  intro e
-  exact h (List.mem_of_getLast? e)
+theorem stripCRLF_id (l : Bytes) (h : CR ∉ l) : stripCRLF l = l := by
+  induction l with
+  | nil => rfl
+  | cons a t ih =>
+    cases t with
+    | nil => rfl
+    | cons b r =>
+      have ha : a ≠ CR := fun e => h (by simp [e])
+      rw [stripCRLF, if_neg (fun hh => ha hh.1), ih (fun e => h (List.mem_cons_of_mem _ e))]
 
 /-! ### the fields of a line contain neither separator nor line break -/
 
@@ -314,8 +318,17 @@ theorem parseLine_fat (it : Item) (h : Valid it) : parseLine (fat it) = some it 
   simp [fields, optField, e64 _ h.ts, e64 _ h.pass, e64 _ h.block, e64 _ h.complete, e64 _ h.error, e64 _ h.rt,
     e64 _ h.occ, e32, parseInt32_decInt _ h.cls_lo h.cls_hi, hsan]
 
-theorem parseLine_dropCR_fat (it : Item) (h : Valid it) : parseLine (dropCR (fat it)) = some it := by
-  rw [dropCR_of_not_mem _ (fat_plain it h.res).2, parseLine_fat it h]
+theorem serialise_noCR (its : List Item) (h : ∀ it ∈ its, Valid it) : CR ∉ serialise its := by
+  induction its with
+  | nil => simp [serialise]
+  | cons it r ih =>
+    rw [serialise]
+    intro hm
+    rcases List.mem_append.1 hm with hm | hm
+    · exact (fat_plain it (h it (by simp)).res).2 hm
+    · rcases List.mem_cons.1 hm with hm | hm
+      · simp [CR, LF] at hm
+      · exact ih (fun x hx => h x (List.mem_cons_of_mem _ hx)) hm
 
 theorem splitLines_serialise (its : List Item) (h : ∀ it ∈ its, Valid it) :
     splitLines (serialise its) = its.map fat := by
@@ -327,11 +340,11 @@ theorem splitLines_serialise (its : List Item) (h : ∀ it ∈ its, Valid it) :
     rfl
 
 theorem filterMap_parse_fat (its : List Item) (h : ∀ it ∈ its, Valid it) :
-    (its.map fat).filterMap (fun l => parseLine (dropCR l)) = its := by
+    (its.map fat).filterMap parseLine = its := by
   induction its with
   | nil => rfl
   | cons it r ih =>
-    rw [List.map_cons, List.filterMap_cons, parseLine_dropCR_fat it (h it (by simp)),
+    rw [List.map_cons, List.filterMap_cons, parseLine_fat it (h it (by simp)),
       ih (fun x hx => h x (List.mem_cons_of_mem _ hx))]
 
 /-! ### truncation at byte `k` -/
@@ -393,18 +406,80 @@ theorem splitLines_take_serialise (its : List Item) (hv : ∀ it ∈ its, Valid 
     · rw [take_app_le _ _ _ (by omega), splitLines_noLF _ (fun h => hLF (List.mem_of_mem_take h)), if_neg hf]
       simp
 
+theorem tailLenAux_noLF (acc : Nat) (l : Bytes) (h : LF ∉ l) : tailLenAux acc l = acc + l.length := by
+  induction l generalizing acc with
+  | nil => rfl
+  | cons b r ih =>
+    have hb : b ≠ LF := fun e => h (by simp [e])
+    rw [tailLenAux, if_neg hb, ih _ (fun e => h (List.mem_cons_of_mem _ e))]
+    simp; omega
+
+theorem tailLenAux_append (acc : Nat) (l r : Bytes) (h : LF ∉ l) : tailLenAux acc (l ++ LF :: r) = tailLenAux 0 r := by
+  induction l generalizing acc with
+  | nil => simp [tailLenAux]
+  | cons b l ih =>
+    have hb : b ≠ LF := fun e => h (by simp [e])
+    rw [List.cons_append, tailLenAux, if_neg hb, ih _ (fun e => h (List.mem_cons_of_mem _ e))]
+
+theorem tailLen_serialise (its : List Item) (hv : ∀ it ∈ its, Valid it) : tailLen (serialise its) = 0 := by
+  induction its with
+  | nil => rfl
+  | cons it r ih =>
+    unfold tailLen at ih ⊢
+    rw [serialise, tailLenAux_append _ _ _ (fat_plain it (hv it (by simp)).res).1]
+    exact ih (fun x hx => hv x (List.mem_cons_of_mem _ hx))
+
+theorem tailLen_take_serialise (its : List Item) (hv : ∀ it ∈ its, Valid it) (k : Nat) :
+    tailLen ((serialise its).take k) = (fragment its k).length := by
+  induction its generalizing k with
+  | nil => simp [serialise, tailLen, tailLenAux, fragment]
+  | cons it r ih =>
+    have hLF := (fat_plain it (hv it (by simp)).res).1
+    unfold fragment
+    rw [serialise]
+    unfold tailLen at ih ⊢
+    split_ifs with hk
+    · rw [take_app_cons _ _ _ _ hk, tailLenAux_append _ _ _ hLF]
+      exact ih (fun x hx => hv x (List.mem_cons_of_mem _ hx)) _
+    · rw [take_app_le _ _ _ (by omega), tailLenAux_noLF _ _ (fun h => hLF (List.mem_of_mem_take h))]
+      simp
+
+theorem readerLines_serialise (its : List Item) (hv : ∀ it ∈ its, Valid it) :
+    readerLines (serialise its) = its.map fat := by
+  unfold readerLines
+  rw [tailLen_serialise its hv, if_neg (by simp), splitLines_serialise its hv]
+
+/-- the lines `readLine` delivers from a data file cut at byte `k`: the complete lines, then the
+    fragment unless it is dropped by the full-buffer rule -/
+theorem readerLines_take_serialise (its : List Item) (hv : ∀ it ∈ its, Valid it) (k : Nat) :
+    readerLines ((serialise its).take k) = (wholeLines its k).map fat ++ tailLine (fragment its k) := by
+  unfold readerLines tailLine
+  rw [tailLen_take_serialise its hv k, splitLines_take_serialise its hv k]
+  by_cases hf : fragment its k = []
+  · simp [hf]
+  · have hpos : 0 < (fragment its k).length := List.length_pos_of_ne_nil hf
+    rw [if_neg hf]
+    by_cases hm : (fragment its k).length % bufSize = 0
+    · rw [if_pos ⟨hpos, hm⟩, if_pos hm, List.dropLast_concat, List.append_nil]
+    · rw [if_neg (fun h => hm h.2), if_neg hm]
+
+theorem tornParse_nil : tornParse [] = [] := by simp [tornParse, tailLine]
+
+theorem tornParse_mem (f : Bytes) (x : Item) (h : x ∈ tornParse f) : parseLine f = some x := by
+  unfold tornParse tailLine at h
+  split_ifs at h with hm
+  · simp at h
+  · simpa using h
+
 /-- what the readers see of a data file cut at byte `k`: every item whose line is wholly before the
     cut, then whatever the fragment parses to -/
 theorem itemsFrom_take_serialise (its : List Item) (hv : ∀ it ∈ its, Valid it) (k : Nat) :
     itemsFrom ((serialise its).take k) 0
-      = wholeLines its k ++ (parseLine (dropCR (fragment its k))).toList := by
-  unfold itemsFrom
-  rw [List.drop_zero, splitLines_take_serialise its hv k, List.filterMap_append,
+      = wholeLines its k ++ tornParse (fragment its k) := by
+  unfold itemsFrom tornParse
+  rw [List.drop_zero, stripCRLF_id _ (fun h => serialise_noCR its hv (List.mem_of_mem_take h)),
+    readerLines_take_serialise its hv k, List.filterMap_append,
     filterMap_parse_fat _ (fun x hx => hv x ((wholeLines_prefix its k).subset hx))]
-  congr 1
-  split_ifs with hf
-  · rw [hf]; simp [dropCR, parseLine]
-  · cases h : parseLine (dropCR (fragment its k)) <;> simp [h]
 
 theorem fragment_eq_nil_of_ge (its : List Item) (k : Nat) (h : (serialise its).length ≤ k) : fragment its k = [] := by
   induction its generalizing k with
@@ -821,7 +896,7 @@ theorem scanEnd_sorted (bs es : Nat) (res : Bytes) (l : List Item) (hs : l.Pairw
 
 theorem itemsFrom_serialise_zero (its : List Item) (hv : ∀ it ∈ its, Valid it) : itemsFrom (serialise its) 0 = its := by
   unfold itemsFrom
-  rw [List.drop_zero, splitLines_serialise its hv, filterMap_parse_fat its hv]
+  rw [List.drop_zero, stripCRLF_id _ (serialise_noCR its hv), readerLines_serialise its hv, filterMap_parse_fat its hv]
 
 theorem itemsFrom_serialise_at (its : List Item) (hv : ∀ it ∈ its, Valid it) (j : Nat) :
     itemsFrom (serialise its) (serialise (its.take j)).length = its.drop j := by
@@ -829,7 +904,7 @@ theorem itemsFrom_serialise_at (its : List Item) (hv : ∀ it ∈ its, Valid it)
   have e : (serialise its).drop (serialise (its.take j)).length = serialise (its.drop j) := by
     conv_lhs => arg 2; rw [← List.take_append_drop j its, serialise_append]
     exact List.drop_left
-  rw [e, splitLines_serialise _ (fun x hx => hv x (List.mem_of_mem_drop hx)),
+  rw [e, stripCRLF_id _ (serialise_noCR _ (fun x hx => hv x (List.mem_of_mem_drop hx))), readerLines_serialise _ (fun x hx => hv x (List.mem_of_mem_drop hx)),
     filterMap_parse_fat _ (fun x hx => hv x (List.mem_of_mem_drop hx))]
 
 theorem flatMap_itemsFrom (fs : Dir) (h : ∀ f ∈ fs, FileOK f ∧ ∀ it ∈ f.lines, Valid it) :
